@@ -59,6 +59,11 @@ fn run_kind<'s, I: Kind<'s>>(sub: &str, g: &G, toks: &[char], extra: &serde_json
     }
     let mut bld = Bld::<I, chumsky::error::Rich<'s, I::Tok, I::Spn>>::new(g, true);
     bld.cap_spans = true;
+    // on BorrowInput kinds half of the cases use any_ref / select_ref!(x = e => e.span()) instead of any / select!
+    bld.borrow_prims = I::BORROW && (g.size() + toks.len()) % 2 == 1;
+    if bld.borrow_prims {
+        l.bump("by_reference_primitive_builds");
+    }
     let p = bld.build(g);
     let o = run_parse(&p, mk());
     l.evals += 1;
@@ -308,4 +313,13 @@ pub fn run(tier: Tier, seed: u64) -> i32 {
         }
         Ok(())
     })
+}
+
+/// one generated case from a raw choice tape (the coverage-guided tier feeds tapes decoded from bytes)
+pub fn fuzz_one(tape: &[u32], l: &mut Local) -> CaseRes {
+    let (g, input, sub, seed) = decode(tape);
+    if !wf(&g) {
+        return Ok(());
+    }
+    check_inner(sub, &g, &input, seed, l)
 }
